@@ -461,6 +461,10 @@ func (f *g2lFn) expr(b *binds, e ast.Expr) string {
 		switch tv.Value.Kind() {
 		case constant.Int:
 			return intLit(tv.Value)
+		case constant.Float:
+			if iv := constant.ToInt(tv.Value); iv.Kind() == constant.Int && intKindOf(tv.Type) != notInt {
+				return intLit(iv)
+			}
 		case constant.String:
 			return bytesLit(constant.StringVal(tv.Value))
 		case constant.Bool:
